@@ -544,6 +544,8 @@ def external(it, qual: str):
     if mod == "copy":
         if name in ("copy",):
             return Builtin("copy.copy", lambda o: shallow_copy(it, o))
+        if name == "deepcopy":
+            return Builtin("copy.deepcopy", lambda o, memo=None: deep_copy(it, o, {}))
     if mod == "builtins":
         if name in it.builtins:
             return it.builtins[name]
@@ -576,6 +578,38 @@ def dc_fields(it, o):
         f = SObj(it.e.bclasses["object"], {"name": n})
         out.append(f)
     return tuple(out)
+
+
+def deep_copy(it, o, memo):
+    """copy.deepcopy on interpreter values: containers and objects are duplicated (sharing inside
+    the copied graph is preserved), symbolic leaves and immutable scalars are shared."""
+    k = id(o)
+    if k in memo:
+        return memo[k]
+    if isinstance(o, SObj):
+        if o.cls.lookup("__deepcopy__")[0] is not None:
+            raise Unsupported("user-defined __deepcopy__")
+        c = SObj(o.cls, {})
+        memo[k] = c
+        for f, v in o.fields.items():
+            c.fields[f] = deep_copy(it, v, memo)
+        return c
+    if isinstance(o, list):
+        c = []
+        memo[k] = c
+        c.extend(deep_copy(it, x, memo) for x in o)
+        return c
+    if isinstance(o, tuple):
+        return tuple(deep_copy(it, x, memo) for x in o)
+    if isinstance(o, dict):
+        c = {}
+        memo[k] = c
+        for kk, v in o.items():
+            c[kk] = deep_copy(it, v, memo)
+        return c
+    if isinstance(o, set):
+        return set(o)
+    return o
 
 
 def shallow_copy(it, o):
